@@ -136,6 +136,8 @@ class FaultInjector(Monitor):
     def before_mutation(self, event, paths):
         if not self.relevant(paths):
             return
+        if event in ("os.remove", "os.unlink", "os.rmdir"):
+            return      # removing a name does not need space: no "disk full" there
         self.n += 1
         if self.n == self.k:
             self.fired = (event, paths)
